@@ -28,6 +28,8 @@ CORPUS = [
     # an unchanged priority used to drop the completion event of the lazy heap
     {"kind": "cpu", "ti": False, "lines": ["H h0 2 1 80.0", "A e4 E h0 310.0 0.0 -1.0 1.0 1", "A e5 E h0 250.0 0.0 -1.0 2.0 1", "A e2 E h0 1280.0 0.0 -1.0 4.0 1",
                                             "X 1.25 P e5 2.0", "X 11.75 S e4", "X 12.0 U e4"]},
+    # a priority change while suspended must not resume the execution (done at 140)
+    {"kind": "closed", "ti": True, "lines": ["H h0 1 1 1.0", "A e0 E h0 100.0 0.0 -1.0 1.0 1", "X 10.0 S e0", "X 20.0 P e0 2.0", "X 50.0 U e0"]},
     {"kind": "net", "ti": False, "lines": ["H h0 1 1 1.0", "H h1 1 1 1.0", "L l0 100.0 10.0 S", "R h0 h1 1 l0", "A c0 C h0 h1 1000.0 0.0 -1.0", "X 4.0 S c0", "X 8.0 U c0"]},
     {"kind": "cpu", "ti": True, "lines": ["H h0 1 1 8.0 P 10.0 3 0.0 1.0 2.5 0.5 6.0 0.25", "A e0 E h0 100.0 0.0 -1.0 1.0 1", "A e1 E h0 60.0 1.5 -1.0 2.0 1", "Z 0.3"]},
 ]
@@ -83,7 +85,7 @@ def closed_history(lines):
             ps = v
         elif op == "S":
             running = False
-        else:
+        elif op == "U":
             running = True
     segs.append((F(10 ** 9), speeds[ps] if running else F(0)))
     return cost, start, segs
@@ -99,7 +101,7 @@ def run(ctx):
         cases = [json.load(open(ctx.replay))["case"]]
     else:
         cases = [dict(c) for c in CORPUS]
-        n = ctx.n(90, 1500)
+        n = ctx.n(90, 900)
         for i in range(n):
             r = i % 6
             if r == 0:
@@ -111,9 +113,7 @@ def run(ctx):
             else:
                 kind = ["cpu", "net", "mixed", "cpu"][r - 2]
                 w = rc.gen_workload(ctx.rng, kind, arbitrary=(i % 5 == 4))
-                ti_ok = all(h["cores"] == 1 for h in w["hosts"].values()) and all(a.get("bound", F(-1)) <= 0 for a in w["acts"]) \
-                    and not any(c[1] == "K" for c in w["ctl"]) and not w["disks"] and False
-                cases.append({"kind": kind, "ti": ti_ok, "lines": [l for l in w["lines"] if not l.startswith("D ") and " I d" not in l]})
+                cases.append({"kind": kind, "ti": False, "lines": [l for l in w["lines"] if not l.startswith("D ") and " I d" not in l]})
     jobs, index = [], []
     for ci, c in enumerate(cases):
         for name, cfg in CONFIGS.items():
@@ -164,7 +164,7 @@ def run(ctx):
                 q += rc.q2(d) + rc.q2(r) + [1]
             closed_q.append((c, obs, q))
     if closed_q:
-        ans = fw.run_model("c21", "run_c19_dates", [q for c, o, q in closed_q])
+        ans = fw.run_model("c19", "run_c19_dates", [q for c, o, q in closed_q])
         for (c, obs, q), a in zip(closed_q, ans):
             if a[0] != 1 or a[1] != 1 or a[2] != 1 or a[5] != 1 or F(a[3], a[4]) != F(a[6], a[7]):
                 ctx.mismatch("model-closed-form", "the model gives no single date on %s: %s" % (c["lines"], a), c)
